@@ -111,6 +111,8 @@ type Explorer struct {
 	Samples    []PathSample
 	Funcs      map[string]bool // functions executed
 	StubsUsed  map[string]int
+	BoundsUsed map[string]int    // verif.Bound parameters and the value they took
+	Inputs     map[string]string // symbolic inputs (by name pattern) and their domains
 	MaxPaths   int
 	StepBudget int64
 	MaxViol    int
@@ -128,6 +130,8 @@ func NewExplorer() *Explorer {
 		Unsupp:     map[string]int{},
 		Funcs:      map[string]bool{},
 		StubsUsed:  map[string]int{},
+		BoundsUsed: map[string]int{},
+		Inputs:     map[string]string{},
 		MaxPaths:   2000000,
 		StepBudget: 20000000,
 		MaxViol:    8,
